@@ -34,6 +34,7 @@ type Opts struct {
 	MaxDepth     int  // maximal account depth (default 4)
 	EquityEquity bool // make sure Equity:Equity is among the accounts
 	Depth1       bool // also book directly on a bare type account ("Expenses", "Assets", ...)
+	CaseTwins    bool // two commodities that differ only in the case of their letters
 	Twins        bool // same-day, same-description transactions whose bookings are a strict prefix of one another
 }
 
@@ -51,6 +52,7 @@ func DefaultOpts(r *rand.Rand) Opts {
 		SharedPref:  r.Intn(3) == 0,
 		MaxDepth:    4,
 		Twins:       r.Intn(4) == 0,
+		CaseTwins:   r.Intn(4) == 0,
 	}
 }
 
@@ -182,6 +184,19 @@ func Accepted(r *rand.Rand, o Opts) (*Journal, *Info) {
 		o.Commodities = len(coms)
 	}
 	coms = coms[:o.Commodities]
+	if o.CaseTwins && len(coms) >= 2 {
+		// the twin takes a random slot, so that either spelling can come first in file and date order
+		a := r.Intn(len(coms))
+		b := (a + 1 + r.Intn(len(coms)-1)) % len(coms)
+		tw := strings.ToLower(coms[a])
+		if r.Intn(2) == 0 {
+			rs := []rune(tw)
+			tw = strings.ToUpper(string(rs[:1])) + string(rs[1:])
+		}
+		if tw != coms[a] && indexOf(coms, tw) < 0 {
+			coms[b] = tw
+		}
+	}
 	dates := DatePool(r, o.Lo, o.Hi, o.Days)
 	info := &Info{Accounts: names, Commodities: coms, Dates: dates, Permanent: map[string]bool{}}
 	j := &Journal{}
